@@ -227,3 +227,15 @@ SWAPS = {
     'D2.IM_pre': {'s': '1-s', 'nu1': 'nu2', 'nu2': 'nu1', 'm12': 'm21', 'm21': 'm12'},
     'SEL.split_mig_sel_single_gamma': {'nu1': 'nu2', 'nu2': 'nu1'},
 }
+
+# ------------------------------------------------------------------ label-swap symmetries of three-population models:
+# model -> (axes permutation applied to the populations, induced permutation of the parameter names). Only models whose
+# docstring states the role of every parameter unambiguously.
+SWAPS3 = {
+    # Eu <-> As: 'nuEu0/nuEu: population 2', 'nuAs0/nuAs: population 3', 'mAfEu: between 1 and 2', 'mAfAs: between 1 and 3'
+    'D3.out_of_africa': ((0, 2, 1), {'nuEu0': 'nuAs0', 'nuAs0': 'nuEu0', 'nuEu': 'nuAs', 'nuAs': 'nuEu', 'mAfEu': 'mAfAs', 'mAfAs': 'mAfEu'}),
+    # three populations created at the same moment, no migration: any relabelling
+    'D3.sim_split_no_mig': ((1, 2, 0), {'nu1': 'nu2', 'nu2': 'nu3', 'nu3': 'nu1'}),
+    'D3.sim_split_no_mig_size': ((2, 0, 1), {'nu1a': 'nu3a', 'nu2a': 'nu1a', 'nu3a': 'nu2a', 'nu1b': 'nu3b', 'nu2b': 'nu1b', 'nu3b': 'nu2b'}),
+}
+
